@@ -38,6 +38,10 @@ def build_roots(kinds):
     add('r_determine_side', 'pub fn r_determine_side(c: %s, a: %s, b: %s) -> f32 { c.determine_side(a, b) }' % (V2, V2, V2), kind='side', K='Vec2')
     add('r_signed_area', 'pub fn r_signed_area(a: %s, b: %s, c: %s) -> f32 { Vec2::signed_triangle_area(a, b, c) }' % (V2, V2, V2), kind='sarea', K='Vec2')
     add('r_area', 'pub fn r_area(a: %s, b: %s, c: %s) -> f32 { Vec2::triangle_area(a, b, c) }' % (V2, V2, V2), kind='area', K='Vec2')
+    V2i = 'Vec2<i32>'
+    add('r_determine_side_i32', 'pub fn r_determine_side_i32(c: %s, a: %s, b: %s) -> i32 { c.determine_side(a, b) }' % (V2i, V2i, V2i), kind='side', K='Vec2', ty='i32')
+    add('r_signed_area_i32', 'pub fn r_signed_area_i32(a: %s, b: %s, c: %s) -> i32 { Vec2::signed_triangle_area(a, b, c) }' % (V2i, V2i, V2i), kind='sarea', K='Vec2', ty='i32')
+    add('r_area_i32', 'pub fn r_area_i32(a: %s, b: %s, c: %s) -> i32 { Vec2::triangle_area(a, b, c) }' % (V2i, V2i, V2i), kind='area', K='Vec2', ty='i32')
     V3 = 'Vec3<f32>'
     add('r_cross', 'pub fn r_cross(a: %s, b: %s) -> %s { a.cross(b) }' % (V3, V3, V3), kind='cross', K='Vec3')
     add('r_vslerp0', 'pub fn r_vslerp0(a: %s, b: %s, f: f32) -> %s { Vec3::slerp_unclamped(a, b, f) }' % (V3, V3, V3), kind='slerp_ends', K='Vec3', max_paths=96)
@@ -162,10 +166,11 @@ def run(ctx):
                 if k == 'side': c_, a_, b_ = vsyms('a0', K), vsyms('a1', K), vsyms('a2', K)
                 else: a_, b_, c_ = vsyms('a0', K), vsyms('a1', K), vsyms('a2', K)
                 cr = (b_[0] - a_[0]) * (c_[1] - a_[1]) - (b_[1] - a_[1]) * (c_[0] - a_[0])     # 2-D cross product (b-a) x (c-a)
+                half = (lambda x: fn('idiv', x, C(2))) if m.get('ty') == 'i32' else (lambda x: x / C(2))
                 if k == 'side': ctx.same(key, rs.only().ret, cr, 'alg=: determine_side = (b-a) x (c-a)', w)
-                elif k == 'sarea': ctx.same(key, rs.only().ret, cr / C(2), 'alg=: signed triangle area = cross / 2', w)
+                elif k == 'sarea': ctx.same(key, rs.only().ret, half(cr), 'alg=: signed triangle area = cross / 2 (integer division for integer elements)', w)
                 else:
-                    s = cr / C(2)
+                    s = half(cr)
                     paths = feasible_paths(rs)
                     ctx.ob(key + '/two-outcomes', len(paths) == 2 and all(p.out == 'ret' for p in paths), 'paths', w, 2, len(paths))
                     for i, p in enumerate(paths):
@@ -203,6 +208,9 @@ def run(ctx):
                     vec_eq(ctx, '%s/path%d/at1' % (key, i), at1, Bv, 'alg=: vector slerp at factor 1 is `to`', w)
                     n += 1
                 ctx.ob(key + '/covers', n >= 1, 'paths', w, '>=1', n)
+                # the complete shape: directions interpolated on the sphere (angle from the NORMALISED operands), length interpolated linearly
+                from .c12 import vslerp
+                vslerp(ctx, key + '/shape', rs, w, False, 'Vec3')
             elif k == 'homog':
                 vec_eq(ctx, key, rs.only().ret, [x / A[3] for x in A], 'alg=: homogenised = v / w (so w becomes 1)', w)
             elif k == 'isw':
